@@ -1,5 +1,6 @@
 """C08 — the API is total: every text and cursor position gets an answer"""
 import contracts.totality  # noqa
+import contracts.linter  # noqa
 import contracts.memo  # noqa  (re-entrancy guard of EvalCtx.evaluate)
 
 INFO = {'not_decided': ['termination (no decreases measure across memoised mutual recursion evaluate -> resolve -> _attrs -> bases -> evaluate)',
